@@ -223,7 +223,11 @@ def _criterion(x_new, x, atol, rtol, n):
         return dsv.np.linalg.norm((x_new - x) / scale) / np.sqrt(n)
 
 
-def _fixed_point(which, mode, n):
+def _fixed_point(which, mode, n, purity="pure"):
+    """purity: how the fixed-point map treats its argument - "pure" (returns a new array), "in-place" (overwrites the
+    array it was given and returns that very array), "partly-in-place" (overwrites a view of it and returns a new array
+    built from the view: the pattern of DualStormerVerlet._step's own map).  The helpers must meet their contract for all."""
+
     def c(k):
         if not k.sym:
             raise K.Reject("loop-cut contract is symbolic only")
@@ -234,8 +238,16 @@ def _fixed_point(which, mode, n):
         calls = []
 
         def fun(x):
-            y = G(x)
-            calls.append((np.array(x, dtype=object), y))
+            before = np.array(x, dtype=object).copy()
+            y = G(before)
+            calls.append((before, y))
+            if purity == "in-place":
+                x[:] = y
+                return x
+            if purity == "partly-in-place":
+                head = x[:1]
+                head[:] = y[:1]
+                return np.concatenate([head, y[1:]])
             return y
 
         atol, rtol = S.var("atol"), S.var("rtol")
@@ -272,6 +284,10 @@ for _which in ("plain", "momentum"):
         for _n in (1, 2):
             contract("C22", f"fixed_point_iteration[{_which},n={_n}]/{_mode}", samples=0, replayable=False, timeout=60, max_paths=300,
                      tiers=("quick", "thorough") if _n == 1 else ("thorough",))(_fixed_point(_which, _mode, _n))
+    for _purity in ("in-place", "partly-in-place"):
+        for _n in (1, 2):
+            contract("C22", f"fixed_point_iteration[{_which},n={_n},map updates its argument {_purity}]/iter", samples=0, replayable=False, timeout=60, max_paths=300,
+                     tiers=("quick", "thorough") if (_n == 1 and _purity == "in-place") or (_n == 2 and _purity == "partly-in-place" and _which == "plain") else ("thorough",))(_fixed_point(_which, "iter", _n, _purity))
 
 
 # ------------------------------------------------------------------- approx_fprime
